@@ -2,7 +2,7 @@
 SRC = ['repo:src/String.cpp', 'repo:src/Memory.cpp', 'repo:src/Mutex.cpp', 'repo:src/Time.cpp', 'repo:src/Error.cpp']
 UNITS = [dict(
     name='loop', harness='harness/c14_loop.cpp', sources=SRC, native=False,
-    defines={'quick': {'VF_NT': 3, 'VF_ACT': 4}, 'thorough': {'VF_NT': 3, 'VF_ACT': 7}},
+    defines={'quick': {'VF_NT': 3, 'VF_ACT': 4}, 'thorough': {'VF_NT': 3, 'VF_ACT': 6}},
     entries=['timers', 'clients', 'accept_connect', 'interrupts', 'closed_timer', 'zero_interval'],
     opts={'all': {'unwind': 64, 'max_instr': 1500000, 'preempt': 2}},
     split={'quick': 14, 'thorough': 16},
@@ -16,7 +16,7 @@ _w = _copy.deepcopy([u for u in _C13.UNITS if u['name'] == 'server'][0]); _w['na
 UNITS.append(_w)      # "writable-with-backlog sockets are eventually dispatched": the write path histories of C13 (interest == {read unless suspended} + {write iff backlog} after every step)
 BOUNDS = {
     'quick': '<= 3 timers with intervals in {1,2,3} ticks (coinciding due times), optional removal of one timer before run(), every activation may remove any timer (itself included), the loop is interrupted after 4 activations; 2 clients readable in one poll round (or one peer closed) whose callbacks remove themselves / the other client with its event pending; a listener with/without a pending connection (accepted or refused by the callback) and an establisher whose connect has/has not completed, then data for the accepted client; interrupt() before run, repeatedly, and from a second thread (every interleaving with <= 2 preemptions)',
-    'thorough': 'interrupt after 7 activations',
+    'thorough': 'interrupt after 6 activations',
 }
 OUTSIDE = 'real epoll/TCP behaviour (kernel model), resolver futures (not exercised), connect errors other than success, more than 3 timers or 2 clients, long-running drift of the clock'
 ASSUMPTIONS = ['real src/Socket/Server.cpp and src/Socket/Socket.cpp incl. the epoll based Poll, MultiMap, PoolList, HashSet; kernel calls, clock and threads are engine models; time passes only in epoll_wait time-outs',
